@@ -11,8 +11,8 @@ class C02(Prop):
     THEOREMS = ["AwProofs.C02.backends_equal_events", "AwProofs.C02.backends_equal_sqlite_peewee", "AwProofs.C02.backends_interchangeable", "AwProofs.C02.delete_exact_memory", "AwProofs.C02.delete_exact_peewee", "AwProofs.C02.delete_exact_sqlite", "AwProofs.C02.history_refines_memory", "AwProofs.C02.history_refines_peewee", "AwProofs.C02.history_refines_sqlite", "AwProofs.C02.ids_unique_memory", "AwProofs.C02.ids_unique_peewee", "AwProofs.C02.ids_unique_sqlite", "AwProofs.C02.lookup_by_id_memory", "AwProofs.C02.lookup_by_id_peewee", "AwProofs.C02.lookup_by_id_sqlite", "AwProofs.C02.no_live_id_reuse_memory", "AwProofs.C02.no_live_id_reuse_peewee", "AwProofs.C02.no_live_id_reuse_sqlite", "AwProofs.C02.refines_memory", "AwProofs.C02.refines_peewee", "AwProofs.C02.refines_sqlite", "AwProofs.C02.replaceLast_exact_peewee", "AwProofs.C02.replaceLast_hits_limit1_memory", "AwProofs.C02.replaceLast_hits_limit1_peewee", "AwProofs.C02.replaceLast_hits_limit1_sqlite"]
     MODEL_NEEDS_IMPL = True
     WORKERS = 10
-    LEVEL_TEXT = "Lean 4 refinement theorems: each backend model's view after every operation equals the list-model step"
-    LEVEL_NOTE = "trusts: Lean kernel; SQLite/peewee SQL semantics as modelled statement by statement; differential tie"
+    LEVEL_TEXT = "Lean 4 refinement theorems for each backend model B in {sqlite, memory, peewee}: refines_B / history_refines_B (the view after every operation of every history that respects the property's precondition is a step of the per-bucket list model), replaceLast_hits_limit1_B, delete_exact_B, no_live_id_reuse_B, lookup_by_id_B, backends_interchangeable, backends_equal_events; models compared with the real backends after every write of random histories (public Bucket API, re-used Event objects, tied instants)"
+    LEVEL_NOTE = 'trusts: Lean kernel + 3 standard axioms; SQL statement semantics as modelled statement by statement (validated differentially); hypothesis on the sqlite read conjunct: the rewritten event ends at or after 1970 (counterexample proved)'
     TECHNIQUE = "Lean 4 refinement proof (backend tables -> per-bucket lists) + differential correspondence on random histories"
     RULE = (
         "seeded random histories over two buckets sharing one database (timestamps on an 8-point grid so that start "
